@@ -425,9 +425,9 @@ class LSFScriptAdapter(SchedulerScriptAdapter):
         # status here. We probably need to start considering what to do with
         # the post and pre monikers in steps.
         LOGGER.debug("Received LSF State -- %s", lsf_state)
-        if lsf_state == "RUN":
+        if lsf_state == "RUN" or lsf_state == "USUSP" or lsf_state == "SSUSP":
             return State.RUNNING
-        elif lsf_state == "PEND":
+        elif lsf_state == "PEND" or lsf_state == "PSUSP":
             return State.PENDING
         elif lsf_state == "DONE":
             return State.FINISHED
